@@ -138,6 +138,60 @@ def merge_position(P, R, pc):
     R.floor('C14.MPT.2', 2)
 
 
+def bounded_recursion(P, R, pc, rule='C14.MPT.5'):
+    """Reading a file terminates without exhausting the stack: the input decides how deep the parser recurses (one
+    level per opening brace), so every recursive call in the parse phase sits behind a depth bound - a counter that is
+    stepped up on the way in and compared with a constant, the far side of the comparison leaving through the error
+    exit.  The merge and the cleanup recurse too, but over the tree the parser built, whose depth that bound limits;
+    they are listed, not constrained."""
+    cr = P.need_fn('conf_read')
+    cl = {k: f for k, f in P.closure([cr], may=True).items() if f.unit in (UNIT, 'src/set.c')}
+    # direct and mutual recursion: f reaches itself through the call graph restricted to the closure
+    succ = {}
+    for k, f in cl.items():
+        succ[k] = {t.key for s in f.calls() for t in P.callees(s, True) if t.key in cl}
+
+    def reaches(a, b):
+        seen, work = set(), list(succ.get(a, ()))
+        while work:
+            x = work.pop()
+            if x == b:
+                return True
+            if x in seen:
+                continue
+            seen.add(x)
+            work.extend(succ.get(x, ()))
+        return False
+    n = 0
+    for k, f in sorted(cl.items()):
+        if not reaches(k, k):
+            continue
+        rec_sites = [s for s in f.calls() if any(t.key == k or reaches(t.key, k) for t in P.callees(s, True) if t.key in cl)]
+        if k not in pc:
+            n += 1
+            R.ob(rule, True, f, '%s recurses over the tree the parser built (depth limited by the parser\'s bound)' % f.name, key='recursion:tree:%s' % f.name, nontrivial=False)
+            continue
+        stepped = set()
+        for t in f.stores():
+            if t.ev['k'] == 'store' and t.ev.get('op') in ('++', '+='):
+                stepped.add(sx(t.ev['lhs']))
+        for s in rec_sites:
+            gs = f.guards(s.bid)
+            def counter(e):
+                # `++depth > K` tests the counter after the step
+                if isinstance(e, dict) and e.get('k') == 'un' and e.get('op') == '++' and not e.get('postfix'):
+                    e = e.get('e')
+                return e
+            gs = [(counter(g[0]), g[1], g[2]) for g in gs]
+            bound = [g for g in gs if isinstance(g[0], dict) and sx(g[0]) in stepped and g[1] in ('<=', '<') and isinstance(const_of(g[2]), int)]
+            # the step up happens before the call on every path
+            stepped_before = bool(bound) and any(t.ev['k'] == 'store' and sx(t.ev['lhs']) == sx(bound[0][0]) and t.ev.get('op') in ('++', '+=') and (f.dominates(t.bid, s.bid) or t.bid == s.bid) for t in f.stores())
+            n += 1
+            R.ob(rule, bool(bound) and stepped_before, s, 'the recursive call of %s is made only below a depth bound (%s)' % (
+                f.name, ('%s %s %s' % (sx(bound[0][0]), bound[0][1], sx(bound[0][2]))) if bound else 'no counter compared with a constant guards it'), key='recursion:bounded:%s' % f.name)
+    R.floor(rule, 2, 'recursive functions reachable from conf_read')
+
+
 def ownership(P, R, rule='C14.OWN.1'):
     rv = P.need_fn('conf_replace_value')
     n = 0
@@ -815,6 +869,7 @@ def run(P, R, tier):
     context_init(P, R)
     pc = phase_separation(P, R)
     merge_position(P, R, pc)
+    bounded_recursion(P, R, pc)
     ownership(P, R)
     bounds(P, R)
     # the parser and the merge keep nothing from one load (or one entry, or one nested call) to the next
